@@ -696,6 +696,75 @@ def evaluate(x: Any) -> Any:
     return ev(x)
 
 
+_HEX = "0123456789abcdefABCDEF"
+
+
+def _hexval(e: Any) -> Any:
+    if isinstance(e, str):
+        return int(e, 16)
+    return z3.If(e <= 57, e - 48, z3.If(e <= 70, e - 55, e - 87))
+
+
+def sx_unquote(string: Any, encoding: str = "utf-8", errors: str = "replace") -> Any:
+    """``urllib.parse.unquote`` for char-array strings (the real one goes through ``re``).
+
+    Real strings take the real function.  Otherwise every '%' (concrete, or a symbolic character
+    decided to be '%') followed by two hex digits is decoded: runs of escapes whose digits are
+    concrete are decoded by CPython (``bytes.decode(encoding, errors)``, so multi-byte UTF-8 is
+    exact); an escape with a symbolic digit becomes the code point 16*h1+h2 when that is ASCII, and is
+    concretised (fork over 128..255) when it is a byte of a multi-byte sequence.  Anything else is copied, as ``unquote`` does.
+    """
+    import urllib.parse as _up
+
+    if type(string) is not SymStr:
+        return _up.unquote(string, encoding, errors)
+    h = string._e
+    out: list = []
+    run = bytearray()
+
+    def flush() -> None:
+        if run:
+            out.extend(bytes(run).decode(encoding, errors))
+            run.clear()
+
+    i = 0
+    while i < len(h):
+        e = h[i]
+        is_pct = (e == "%") if isinstance(e, str) else branch(e == 37)
+        if is_pct and i + 2 < len(h):
+            c1, c2 = h[i + 1], h[i + 2]
+            if branch(_and([_in_set(c1, _HEX), _in_set(c2, _HEX)])):
+                if isinstance(c1, str) and isinstance(c2, str):
+                    run.append(int(c1 + c2, 16))
+                else:
+                    v = 16 * _hexval(c1) + _hexval(c2)
+                    if branch(v < 128):
+                        flush()
+                        out.append(v)
+                    else:
+                        run.append(concretize(v, 128, 255))  # part of a multi-byte sequence: fork over its value
+                i += 3
+                continue
+        flush()
+        out.append("%" if is_pct else e)
+        i += 1
+    flush()
+    return _mk(out)
+
+
+def choice(name: str, options: list) -> Any:
+    """One of the concrete ``options``, chosen by a symbolic index (forks; the model names it)."""
+    p = _path()
+    k = p.explorer._var(name)
+    if not any(v is k for v in p.vars):
+        p.vars.append(k)
+        p.solver.add(k >= 0, k < len(options))
+    for i in range(len(options) - 1):
+        if branch(k == i):
+            return options[i]
+    return options[-1]
+
+
 def contains_any(text: Any, chars: str) -> bool:
     """Does ``text`` contain any character of ``chars``?  (one decision instead of len(chars))"""
     if type(text) is SymStr:
@@ -883,6 +952,11 @@ class _Rewrite(ast.NodeTransformer):
         return node
 
 
+import urllib.parse as _urllib_parse  # noqa: E402
+
+_URLLIB_UNQUOTE = _urllib_parse.unquote
+
+
 def _code_names(code: Any) -> set[str]:
     out = set(code.co_names)
     for c in code.co_consts:
@@ -946,7 +1020,9 @@ def _load(raw: Any, replacements: dict, memo: dict, used: set) -> Callable[..., 
             used.add(name)
             continue
         v = raw.__globals__.get(name)
-        if type(v) is str:
+        if v is _URLLIB_UNQUOTE:
+            g[name] = sx_unquote  # the real one goes through `re`; same function for real strings
+        elif type(v) is str:
             g[name] = CharSet(v)
         elif isinstance(v, types.FunctionType) and v.__module__ == raw.__module__ and v is not raw:
             g[name] = _load(v, replacements, memo, used)
@@ -966,7 +1042,7 @@ def selfcheck(n: int = 300, seed: int = 0) -> list[str]:
     with CPython.
     """
     rnd = random.Random(seed)
-    alphabet = "ab/:@?#\\ \t\n.A%0[9]Zz"
+    alphabet = "ab/:@?#\\ \t\n.A%0[9]Zz2Ff%"
     errors: list[str] = []
 
     def pinned(name: str, s: str) -> Any:
@@ -998,6 +1074,7 @@ def selfcheck(n: int = 300, seed: int = 0) -> list[str]:
         ("isdigit", lambda s, t: (s.isdigit(), s.isalpha(), s.isascii(), s.isalnum(), s.isspace())),
         ("slice", lambda s, t: (s[:2], s[1:], s[-1:] if len(s) else "", s[:1] + t)),
         ("count", lambda s, t: s.count(t) if len(t) else 0),
+        ("unquote", lambda s, t: sx_unquote(s + "%" + s + t + "%4") if type(s) is SymStr else _urllib_parse.unquote(s + "%" + s + t + "%4")),
     ]
     for k in range(n):
         a = "".join(rnd.choice(alphabet) for _ in range(rnd.randint(0, 6)))
